@@ -537,7 +537,7 @@ def exprOf {q : Nat} (id : Nat) (i : Nat) (x : List (ZM q)) : ZM q :=
 def showOpt {q : Nat} (o : Option (ZM q)) : String :=
   match o with | some v => toHex v.val | none => "panic"
 
-def handle (args : List String) : String :=
+def handle1 (args : List String) : String :=
   match args with
   | "expr" :: curve :: qs :: Ls :: ws :: gs :: resform :: rmode :: eid :: ks :: rest =>
     match parseCtx curve qs Ls ws gs, parseForm resform with
@@ -684,5 +684,26 @@ def handle (args : List String) : String :=
       | none => "bad-op"
     | _, _ => "bad-op"
   | _ => "bad-op"
+
+/-- segments of a `hist` line: the words between the `/` separators (`n` separators give `n+1` segments) -/
+def splitSegs : List String → List (List String)
+  | [] => [[]]
+  | w :: ws =>
+    match splitSegs ws with
+    | [] => [[w]]
+    | s :: ss => if w == "/" then [] :: s :: ss else (w :: s) :: ss
+
+/-- Call histories. The model is a pure function of the op line, so `rep k op` (the same call executed `k` times in one
+    process) is answered by `k` copies of the answer to `op`, and `hist op₁ / op₂ / …` by the answers to the ops taken
+    one by one: no call may depend on the calls made before it (caches, pools, shared domains, returned slices). -/
+def handle (args : List String) : String :=
+  match args with
+  | "rep" :: ks :: inner =>
+    match parseHex ks with
+    | some k => if k < 1 ∨ k > 16 then "bad-op" else " | ".intercalate (List.replicate k (handle1 inner))
+    | none => "bad-op"
+  | ["rep"] => "bad-op"
+  | "hist" :: rest => " | ".intercalate ((splitSegs rest).map handle1)
+  | _ => handle1 args
 
 end GV.Poly
